@@ -1,8 +1,8 @@
 """C03 — Archive members are loaded exactly when needed.
 
 Domain: reference graphs over 1..3 plain objects and 1..3 archives (regular, thin, or
-`--start-lib/--end-lib` groups) of 1..4 members; every file defines 0..2 of up to 10 symbols and
-references 0..3 others strongly or weakly (cycles, self-archive and cross-archive edges);
+`--start-lib/--end-lib` groups) of 1..4 members; every file defines 0..2 symbols and
+references 0..4 others strongly or weakly (cycles, self-archive and cross-archive edges);
 `--whole-archive` regions; `-u sym`; any command-line order of the items; optionally the same
 symbol defined in two files (then `-z muldefs`, and the *first definition in command-line order*
 is the one a reference requests).
@@ -31,12 +31,12 @@ def sym(i):
     return f"s{i}"
 
 
-def file_strategy():
+def file_strategy(min_refs=0, max_refs=3):
     return st.fixed_dictionaries({
         "nd": st.sampled_from([0, 1, 1, 1, 2]),
         "dup": st.integers(0, 63),
-        "refs": st.lists(st.tuples(st.integers(0, 63), st.sampled_from([False, False, False, True])).map(list),
-                         min_size=0, max_size=3),
+        "refs": st.lists(st.tuples(st.integers(0, 63), st.sampled_from([False, False, True])).map(list),
+                         min_size=min_refs, max_size=max_refs),
     })
 
 
@@ -47,7 +47,7 @@ def raw_strategy(tier):
         "members": st.lists(file_strategy(), min_size=1, max_size=4),
     })
     return st.fixed_dictionaries({
-        "objs": st.lists(file_strategy(), min_size=1, max_size=3),
+        "objs": st.lists(file_strategy(1, 4), min_size=1, max_size=3),
         "archives": st.lists(archive, min_size=1, max_size=3),
         "order": st.lists(st.integers(0, 99), min_size=6, max_size=6),
         "alts": st.lists(st.lists(st.integers(0, 99), min_size=6, max_size=6), min_size=2, max_size=2),
